@@ -138,4 +138,12 @@ TEXT["C19"] = {
             "Stim's loop-folded analysis (validated by C06). One genuine defect fixed (surface code generator validated distance/rounds after placing qubits: distance 0 never returned).",
     "technique": "Lean 4 theorems (detector counting) + oracle correspondence (determinism via gauge parities) + metamorphic template comparison",
 }
+TEXT["C05"] = {
+    "level": "Kernel-checked: the conditional-probability chain that the simulators use for disjoint channels gives every outcome exactly its documented probability (any non-negative vector with sum <= 1); the "
+             "7-bit ladder of biased_randomize_bits is exact for all 128 values; the acceptance test accepts the exact expectation. Correspondence (statistical): sampled outcome histograms and pairwise joint "
+             "counts of every channel type in the frame sampler, the tableau simulator and the DEM sampler lie within Bernstein's 1e-12 bound of the exact probabilities derived by the Lean channel semantics.",
+    "note": COMMON_NOTE + "Frequencies can only be sampled: this check is partial by nature (deviations below the resolution of 2e3..2e4 shots are invisible); it is the one property where the correspondence is "
+            "statistical rather than exact.",
+    "technique": "Lean 4 theorems (chain arithmetic, bit ladder) + statistical correspondence with exact expected probabilities and a rigorous tail bound",
+}
 NOT_CLAIMED = {}
